@@ -129,7 +129,7 @@ package p2p
 // ---- C18: every topic of a connection reassembles into a buffer of its own ------------------------------------------
 // Packets of different topics interleave on the wire; a half-assembled message of one topic stays in its stream's
 // assembler while packets of other topics arrive. Each stream created for a connection therefore starts with an
-// assembler allocated for that stream alone (allocated in the same loop iteration as the stream), never a block shared
-// between topics.
+// assembler allocated for that stream alone (every stream a loop iteration adds to the map was allocated in that
+// iteration, and so was its assembler), never a block shared between topics.
 //@ func (*P2P).NewStreams
-//@   loop 1 iterensures[ownassembler] i != lib.Topic_HEARTBEAT ==> indom(streams, i) && streams[i] != nil && freshiter(streams[i]) && freshiter(streams[i].msgAssembler)
+//@   loop 1 iterensures[ownassembler] forall t lib.Topic :: indom(streams, t) && !athead(indom(streams, t)) ==> streams[t] != nil && freshiter(streams[t]) && freshiter(streams[t].msgAssembler)
